@@ -90,6 +90,7 @@ RunResult run_afail(const Plan &p, EventLog &log, RunStats &stats, Progress *pro
         w.armed_step = target;
         w.force_judged_step = target;
         w.crash_judged_from = target >= 0 ? target : (1 << 30);
+        w.ledger_judged_from_target = true;
         w.arm_fail_k = p.sub > 0 ? (long)p.sub : 0;
         try {
             for (size_t i = 0; i < p.steps.size(); i++) {
